@@ -81,14 +81,19 @@ fn gen_ops(rng: &mut Rng, data_len: usize, crash: bool) -> Vec<ROp> {
         let k = rng.weighted(&[14, 6, 8, 8, 12, 6, 6, 4, 8, 3, 3, 3, w_crash, w_crash]);
         ops.push(match k {
             0 => {
-                if rng.chance(1, 6) {
+                if rng.chance(1, 150) {
+                    // "everything there is"
+                    ROp::Request(*rng.pick(&[usize::MAX, usize::MAX / 2, 1 << 40]))
+                } else if rng.chance(1, 6) {
                     ROp::Request(rng.below(data_len + 12))
                 } else {
                     ROp::Request(rng.small(48))
                 }
             }
             1 => ROp::RequestByte,
-            2 => ROp::RequestByteAt(if rng.chance(1, 8) {
+            2 => ROp::RequestByteAt(if rng.chance(1, 150) {
+                *rng.pick(&[usize::MAX, usize::MAX - 1, 1 << 40])
+            } else if rng.chance(1, 8) {
                 rng.below(data_len + 12)
             } else {
                 rng.small(40)
